@@ -1,4 +1,5 @@
 """C01 - first matching categorizing rule decides merchant/category/subcategory."""
+from engine.ob import use_engine
 from engine.ob import Obligation, post, reset_tally_caches, inject
 from harness import sel
 
@@ -89,7 +90,7 @@ def real_conditions(tname, dlen=3, slen=2, via='engine', gseed=0, refcheck=False
             got_rule = res.matched_rule
         else:
             from tally import merchant_utils
-            merchant_utils._cached_engine = eng
+            use_engine(eng)
             real_name = merchant_utils.extract_merchant_name
             merchant_utils.extract_merchant_name = lambda _d: 'FALLBACK'   # the fallback name is the subject of unknown-*
             try:
@@ -146,7 +147,7 @@ def unknown_name(path, dlen=2):
         reset_tally_caches()
         if path == 'engine':
             from tally.merchant_engine import parse_merchants
-            merchant_utils._cached_engine = parse_merchants('[T]\nmatch: amount > 5\ntags: big\n\n[N]\nmatch: amount > 1 and amount < 1\ncategory: Never\n')
+            use_engine(parse_merchants('[T]\nmatch: amount > 5\ntags: big\n\n[N]\nmatch: amount > 1 and amount < 1\ncategory: Never\n'))
             rules = []
         else:
             rules = [('ZZZZ', 'M', 'Cat', 'Sub', ParsedPattern(regex_pattern='ZZZZ', is_expression=False), 'user', []),
@@ -302,7 +303,7 @@ def transforms_chain(part, dlen=2, slen=1):
             memo, s2, s3 = 'mm', 'x', 'never'     # memo side concrete, never matches [M]
         values = {'@P1': s1, '@P2': s2, '@P3': s3, '@P4': s4}
         eng = tmpl.load(T_TRANSFORM, values)
-        merchant_utils._cached_engine = eng
+        use_engine(eng)
         mm, cc, ss, info = merchant_utils.normalize_merchant(desc, [], amount=5, field={'memo': memo}, data_source='S',
                                                               transforms=eng.transforms)
         # documented semantics, applied by hand
